@@ -699,7 +699,10 @@ func (g *Gen) make(k Kind) *Item {
 		if !g.Cfg.BlockOnly {
 			return nil
 		}
-		v := add(g.avail(Native, from.Addr), LK(int64(1+g.T.Int(5))))
+		// above the whole supply: cannot be covered whatever arrives earlier in
+		// the block (a transfer that unexpectedly succeeded would leave the
+		// sender unable to prepay gas for its later transactions)
+		v := add(mulU(g.Cfg.Funds, uint64(len(g.Accts))), LK(int64(1+g.T.Int(5))))
 		return g.Transfer(from, g.eoaTarget(), v)
 	case KTokenNative:
 		max := g.avail(Native, from.Addr)
